@@ -20,6 +20,19 @@ Theorem C01_hop_conserves_energy_exactly :
 Proof. exact hop_energy_exact. Qed.
 Print Assumptions C01_hop_conserves_energy_exactly.
 
+(* the same with the hypothesis on the direction in its natural form: not the zero vector *)
+Theorem C01_hop_conserves_energy_exactly_nonzero_direction :
+  forall (m v dir en : list R) (st tg st' : nat) (v' : list R),
+    Forall (fun mi => 0 < mi) m -> length v = length m -> length dir = length m ->
+    0 < vdot ROps dir dir ->
+    hop_to_it ROps m v st tg en dir = (st', v', true) ->
+    st' = tg /\ kinetic ROps m v' + vget ROps en tg = kinetic ROps m v + vget ROps en st.
+Proof.
+  intros m v dir en st tg st' v' Hm Hv Hd Hn H.
+  apply (hop_energy_exact m v dir en st tg st' v' Hm Hv Hd (qa_pos m dir Hd Hm Hn) H).
+Qed.
+Print Assumptions C01_hop_conserves_energy_exactly_nonzero_direction.
+
 Theorem C01_rejected_hop_changes_nothing :
   forall (m v dir en : list R) (st tg st' : nat) (v' : list R),
     hop_to_it ROps m v st tg en dir = (st', v', false) -> st' = st /\ v' = v.
